@@ -191,6 +191,9 @@ define_ops! {
     serde_u64_dec = |w: W| { use serde::de::IntoDeserializer; let d: serde::de::value::U64Deserializer<serde::de::value::Error> = w.into_deserializer(); (opt(<Uint<B, L> as serde::Deserialize>::deserialize(d)), { let d: serde::de::value::U32Deserializer<serde::de::value::Error> = (w as u32).into_deserializer(); opt(<Uint<B, L> as serde::Deserialize>::deserialize(d)) }, { let d: serde::de::value::U8Deserializer<serde::de::value::Error> = (w as u8).into_deserializer(); opt(<Bits<B, L> as serde::Deserialize>::deserialize(d)) }) };
     serde_str_dec = |t: ST| { use serde::de::IntoDeserializer; let a = { let d: serde::de::value::StrDeserializer<serde::de::value::Error> = t.as_str().into_deserializer(); opt(<Uint<B, L> as serde::Deserialize>::deserialize(d)) }; let b = { let d: serde::de::value::StringDeserializer<serde::de::value::Error> = t.clone().into_deserializer(); opt(<Uint<B, L> as serde::Deserialize>::deserialize(d)) }; let c = { let d = serde::de::value::BorrowedStrDeserializer::<serde::de::value::Error>::new(t.as_str()); opt(<Uint<B, L> as serde::Deserialize>::deserialize(d)) }; (a, b, c) };
     bincode_dec = |s: BY| opt(bincode::deserialize::<Uint<B, L>>(&s));
+    // serde's in-place entry point (what Vec<T>::deserialize_in_place uses when a buffer is refilled): whatever it leaves in
+    // the destination - also after an error - must be a canonical value
+    bincode_in_place = |a: U, s: BY| { use bincode::Options; let mut place = a; let mut de = bincode::Deserializer::from_slice(&s, bincode::DefaultOptions::new().with_fixint_encoding().allow_trailing_bytes()); let ok = <Uint<B, L> as serde::Deserialize>::deserialize_in_place(&mut de, &mut place).is_ok(); let mut pb = Bits::from(a); let mut de2 = bincode::Deserializer::from_slice(&s, bincode::DefaultOptions::new().with_fixint_encoding().allow_trailing_bytes()); let ok2 = <Bits<B, L> as serde::Deserialize>::deserialize_in_place(&mut de2, &mut pb).is_ok(); let mut pj = a; let okj = { let mut dj = serde_json::Deserializer::from_slice(&s); <Uint<B, L> as serde::Deserialize>::deserialize_in_place(&mut dj, &mut pj).is_ok() }; (ok, place, ok2, pb.into_inner(), okj, pj) };
     bincode_reader_dec = |s: BY| { use bincode::Options; opt(bincode::DefaultOptions::new().with_fixint_encoding().allow_trailing_bytes().with_limit(1 << 16).deserialize_from::<_, Uint<B, L>>(Env::new(s, 0, 3))) };
     bincode_bits_dec = |s: BY| opt(bincode::deserialize::<Bits<B, L>>(&s));
     rlp_dec = |s: BY| opt(rlp::decode::<Uint<B, L>>(&s));
@@ -957,6 +960,28 @@ fn model(bits: usize, op: Op, args: &[V]) -> Expect {
         seq_alloy_dec | seq_fastrlp04_dec | seq_scale_dec | seq_compact_dec | seq_borsh_dec | seq_bincode_dec | seq_json_dec | seq_rlp_dec => dont_care(),
         // ---------------------------------------------------------------- decoders
         json_dec | json_bits_dec | json_reader_dec | json_value_dec => from3(json_denotes(s()), bits, true),
+        bincode_in_place => {
+            let a0 = a();
+            let den = rc::bincode_denotes(args[1].as_bytes()).map(|x| x.0).filter(|v| v < &m);
+            // the JSON leg stops after the first value (no end-of-input check in a bare deserialize_in_place): no claim on
+            // acceptance there, only that whatever is left in the destination is canonical
+            let jden: Option<Option<BigUint>> = None;
+            pred("on success the destination holds the denoted value; on error it holds SOME canonical value (checked by the canonicity funnel)", move |g| {
+                let V::T(t) = g else { return false };
+                if t.len() != 6 {
+                    return false;
+                }
+                let good = |ok: &V, val: &V, d: &Option<BigUint>| match (ok, d) {
+                    (V::B(true), Some(v)) => *val == u(v, bits),
+                    (V::B(true), None) => false,
+                    (V::B(false), _) => matches!(val, V::U(_)),
+                    _ => false,
+                };
+                let _ = &a0;
+                good(&t[0], &t[1], &den) && good(&t[2], &t[3], &den) && match &jden { Some(d) => good(&t[4], &t[5], d), None => true }
+            })
+            .nt(true)
+        }
         bincode_dec | bincode_bits_dec | bincode_reader_dec => may_accept(bits, rc::bincode_denotes(s()).map(|x| x.0), None, true),
         rlp_dec | rlp_bits_dec => may_accept(bits, rc::rlp_denotes(s()).map(|x| x.0), None, true),
         alloy_dec | fastrlp03_dec | fastrlp04_dec => {
@@ -1355,6 +1380,31 @@ fn fp_checks(r: &Runner) {
                 l.record($name, $name, 256, &args, got, is(e).nt(true));
             }};
         }
+        // a field element into types with the same limb count but FEWER bits than the modulus (254): the conversion must
+        // panic or give a canonical value, in both profiles (a range check that exists only as a debug assertion)
+        macro_rules! fp_narrow {
+            ($name:literal, $f:ty, $md:expr, $($b:literal),*) => {{
+                if v < $md {$(
+                    let got = l.guard($name, $name, $b, &args, || {
+                        let a: Uint<256, 4> = FromV::<256, 4>::from_v(&args[0]);
+                        let x = <$f>::try_from(a).ok().expect("harness: field element");
+                        let n: Uint<$b, 4> = <Uint<$b, 4> as From<_>>::from(x);
+                        let n2: Uint<$b, 4> = <Uint<$b, 4> as From<_>>::from(&x);
+                        V::T(vec![V::U(n.as_limbs().to_vec()), V::U(n2.as_limbs().to_vec())])
+                    });
+                    let fits = v.bits() as usize <= $b;
+                    let want = V::U(args[0].limbs().to_vec());
+                    let mk = if $b % 64 == 0 { u64::MAX } else { (1u64 << ($b % 64)) - 1 };
+                    let e = pred(if fits { "both forms give the value" } else { "a panic (the element does not fit), never limbs above the mask" }, move |g| match g {
+                        V::Panic => !fits,
+                        V::T(t) => fits && t.len() == 2 && t[0] == want && t[1] == want && matches!(&t[0], V::U(x) if x[3] <= mk),
+                        _ => false,
+                    });
+                    l.record($name, $name, $b, &args, got, e.nt(true));
+                )*}
+            }};
+        }
+        fp_narrow!("ark-ff 0.4 Fp<bn254::Fr> -> Uint<B, 4> with B < 254", ark_bn254_04::Fr, r3, 193, 250, 253, 254, 255);
         fp!("ark-ff 0.3 Fp256<bn254::Fq>: TryFrom<Uint> / From<Fp>", ark_bn254_03::Fq, q3);
         fp!("ark-ff 0.3 Fp256<bn254::Fr>: TryFrom<Uint> / From<Fp>", ark_bn254_03::Fr, r3);
         fp!("ark-ff 0.4 Fp<bn254::Fq>: TryFrom<Uint> / From<Fp>", ark_bn254_04::Fq, q3);
@@ -1433,6 +1483,7 @@ fn decode_all(l: &mut Local, bits: usize, input: &[u8]) {
         exec(l, bits, Op::compact_dec, &args);
         exec(l, bits, Op::compact_opaque_dec, &args);
     }
+    exec(l, bits, Op::bincode_in_place, &[V::U(vec![0u64; (bits + 63) / 64]), args[0].clone()]);
     // the digit-list parsers with every byte as one digit
     for b in [3u64, 10, 255, 256, 1 << 16, 1 << 32, (1 << 32) + 1, 1 << 63, u64::MAX] {
         exec(l, bits, Op::base_le_dec, &[args[0].clone(), V::N(b as u128)]);
